@@ -133,6 +133,8 @@ structure NetS where
   index : List (Nat × Nat) := []         -- verified_by_public_key_bin: key → object id
   cache : List (Bytes × Nat) := []       -- reverse_ip_lookup, oldest first
   cap : Nat := 500
+  hints : List Nat := []                 -- iteration order of the `verified_peers` SET is not modelled: when several verified
+                                         -- peers share the address, the next hint (if it is one of them) says which the scan found
 deriving Repr, Inhabited
 
 def NetS.obj (s : NetS) (oid : Nat) : Option PeerObj := s.objs.find? (·.oid == oid)
@@ -159,8 +161,13 @@ def NetS.lookup (s : NetS) (a : Bytes) : Except Exn (Option Nat) × NetS :=
   | .error e => (.error e, s1)
   | .ok (some oid) => (.ok (some oid), { s1 with cache := cachePut s1.cache a oid s.cap })
   | .ok none =>
-    match s.verified.find? (fun oid => s.hasAddr oid a) with
-    | some oid => (.ok (some oid), { s1 with cache := cachePut s1.cache a oid s.cap })
+    let cands := s.verified.filter (fun oid => s.hasAddr oid a)
+    let pick : Option Nat × List Nat :=
+      match s.hints with
+      | h :: rest => if cands.contains h then (some h, rest) else (cands.head?, s.hints)
+      | [] => (cands.head?, [])
+    match pick.1 with
+    | some oid => (.ok (some oid), { s1 with cache := cachePut s1.cache a oid s.cap, hints := pick.2 })
     | none => (.ok none, s1)
 
 /-- Network.add_verified_peer for a peer object with a non-blacklisted address -/
